@@ -14,6 +14,8 @@ type X struct {
 	Kids   []*X
 	Negate bool // isnull: IS NOT NULL
 	Filter *X   // call: FILTER (WHERE …)
+	// Distinct: call: agg(DISTINCT x) — duplicates of the argument's value count once
+	Distinct bool
 }
 
 // Item is one element of a select list.
@@ -486,6 +488,9 @@ func (p *parser) primary() *X {
 		p.expectOp("(")
 		call := &X{K: "call", Op: t.Text}
 		if !p.isOp(")") {
+			if p.acceptKw("DISTINCT") {
+				call.Distinct = true
+			}
 			for {
 				if p.acceptOp("*") {
 					call.Kids = append(call.Kids, &X{K: "star"})
